@@ -47,8 +47,10 @@ DELIVERABLES (put them in {wt}/_seed/ ; create the directory)
 1. {wt}/_seed/patch.diff : output of `git -C {wt} diff -- pyUSID` (only files under pyUSID/ changed; do not commit).
 2. {wt}/_seed/demo.py : a small self-contained program (run as `cd {wt} && /venv/bin/python _seed/demo.py`) that
    exits 0 and prints PASS when the property holds on the scenario, and exits 1 printing FAIL when it is violated.
-   It must FAIL with your change applied and PASS on the unchanged tree (check both: `git stash` / `git stash pop`,
-   or `git apply -R`).  Use temporary directories for files.
+   It must FAIL with your change applied and PASS on the unchanged tree (check both, e.g. with
+   or `git apply -R`).  Use temporary directories for files.  Do NOT use `git stash`: the stash is shared by all
+   worktrees of the repository and other people work in sibling worktrees; use
+   `git diff -- pyUSID > /tmp/<yours>.diff; git apply -R /tmp/<yours>.diff; ...; git apply /tmp/<yours>.diff`.
 3. {wt}/_seed/meta.json : {{"property": "{pid}", "summary": "...what was changed...", "needs": "...what is needed
    for the bug to manifest...", "tests": "...what you ran and the pass/fail counts before and after..."}}
 Leave the change APPLIED in the worktree when you finish.  In your final answer give a 5-10 line summary (what
